@@ -26,7 +26,7 @@
     primary executed its first signalling statement neither the threshold
     timer nor the workers' deadline had fired ("the primary produced its
     result within the threshold"). *)
-From Verif Require Import Base.Prelude Gen.FallbackFacts Model.Fallback Proofs.Fallback.
+From Verif Require Import Base.Prelude Gen.Constants Gen.FallbackFacts Model.Fallback Proofs.Fallback.
 Open Scope N_scope.
 
 (** The primary's answer is returned whenever the primary produces one within
@@ -172,6 +172,32 @@ Theorem c20_original_order_refuted :
 Proof. exact standby_race_refuted. Qed.
 Print Assumptions c20_original_order_refuted.
 
+(** "The threshold" of all statements above is the configured one: the
+    duration newFallbackPlugin stores (the function
+    [fallback_effective_threshold], translated by tools/gofacts from the
+    statements that compute fallback.fastFallbackDuration from
+    args.Threshold, in ns) is exactly the configured number of milliseconds
+    whenever that is positive (up to the int64 range of time.Duration, where
+    the translation into Z is faithful), and the default
+    [fallback_default_threshold] (500 ms) when it is unset, 0 or negative;
+    and it is the function [effective_threshold] that Judge.C20 compares the
+    real constructor with. *)
+Theorem c20_configured_threshold_is_effective cfg :
+  (0 < cfg)%Z -> (cfg * 1000000 < 2 ^ 63)%Z ->
+  fallback_effective_threshold cfg = (cfg * 1000000)%Z.
+Proof. exact (fun H _ => source_threshold_configured cfg H). Qed.
+Print Assumptions c20_configured_threshold_is_effective.
+
+Theorem c20_unset_threshold_is_default cfg :
+  (cfg <= 0)%Z -> fallback_effective_threshold cfg = fallback_default_threshold.
+Proof. exact (source_threshold_default cfg). Qed.
+Print Assumptions c20_unset_threshold_is_default.
+
+Theorem c20_source_threshold_as_modelled cfg :
+  fallback_effective_threshold cfg = effective_threshold cfg.
+Proof. exact (source_threshold_as_modelled cfg). Qed.
+Print Assumptions c20_source_threshold_as_modelled.
+
 (** The structure of doFallback that the model transcribes, as tools/gofacts
     finds it in the source: statement orders, channel capacity, collection
     rounds, and the cases of the secondary's two selects. *)
@@ -180,7 +206,9 @@ Example c20_source_shape_as_modelled :
   fallback_send_before_done = true /\ fallback_fail_close_before_send = true
   /\ fallback_chan_cap = 2 /\ fallback_collect_rounds = 2
   /\ fallback_wait_cases = ["primDone return"; "primFailed"; "timer.C"]%string
-  /\ fallback_hold_cases = ["ctx.Done()"; "primDone"; "primFailed"; "timer.C"]%string.
+  /\ fallback_hold_cases = ["ctx.Done()"; "primDone"; "primFailed"; "timer.C"]%string
+  /\ fallback_standby_field_from = "args.AlwaysStandby"%string
+  /\ fallback_default_threshold = 500000000%Z.
 Proof. repeat split. Qed.
 
 (** Non-vacuity: with always_standby and both workers answering there is a
